@@ -135,6 +135,26 @@ func loadKnown() ([]KnownFinding, error) {
 
 var unsafeRe = regexp.MustCompile(`[^A-Za-z0-9_.-]+`)
 
+// FailingKeys returns the keys of failed obligations that are not recorded known findings.
+func (r *Report) FailingKeys() []string {
+	r.closeRule()
+	known, _ := loadKnown()
+	km := map[string]bool{}
+	for _, k := range known {
+		if k.Property == r.Prop && k.Status == "known" {
+			km[k.Key] = true
+		}
+	}
+	var out []string
+	for _, o := range r.Obs {
+		if !o.OK && !km[o.Key] {
+			out = append(out, o.Key)
+		}
+	}
+	sort.Strings(out)
+	return out
+}
+
 // Finish writes the evidence file, prints VIOLATION / KNOWN-FINDING lines and
 // returns the process exit code.
 func (r *Report) Finish() int {
